@@ -40,6 +40,8 @@ inductive Cond where
 inductive Norm where
   | indexZeroUnlessSingleton    -- `if not is_singleton(d): d = d[0]`
   | ensureListlike (dups : ℕ)   -- `derivs = ensure_listlike(d, self.pardim)`
+  | toTuple                     -- `derivs = tuple(derivs)`
+  | toList                      -- `derivs = list(derivs)`
   deriving DecidableEq, Repr, Inhabited
 
 /-- The `from_right` argument of a `basis.evaluate` call inside the closed-form section. -/
@@ -65,6 +67,14 @@ structure Table where
 def applyNorm (d : DSpec) : Norm → Option DSpec
   | .indexZeroUnlessSingleton => if d.isSingleton then some d else d.head?.map DSpec.int
   | .ensureListlike k => some (d.ensureListlike k)
+  | .toTuple => match d with
+      | .int _ => none            -- `tuple(3)` is a TypeError
+      | .tup l => some (.tup l)
+      | .lst l => some (.tup l)
+  | .toList => match d with
+      | .int _ => none
+      | .tup l => some (.lst l)
+      | .lst l => some (.lst l)
 
 def IExpr.eval (d : DSpec) : IExpr → Option ℕ
   | .dInt => match d with
@@ -108,7 +118,7 @@ def Cond.eval (rational : Bool) (d : DSpec) : Cond → Option Bool
 /-- The path a call takes according to the table. -/
 def Table.outcome (T : Table) (rational : Bool) (d : DSpec) : Outcome :=
   match T.norm.foldlM applyNorm d with
-  | none => .raises .index
+  | none => .raises .index      -- `d[0]` on an empty sequence (IndexError) / `tuple(int)` (TypeError)
   | some cur =>
     match T.genericGuard.eval rational cur with
     | none => .raises .type
